@@ -24,6 +24,48 @@ import (
 type Case struct {
 	Text     fw.BStr `json:"text"`
 	Prefixes bool    `json:"prefixes,omitempty"`
+	// Reuse: the texts (the text and After, or all the prefixes) are parsed one after the other with ONE Tree object
+	// (parse.New(name, nil) and then its Parse method each time): each parse is a parse like any other, whatever the
+	// one before it ran into
+	Reuse bool    `json:"reuse,omitempty"`
+	After fw.BStr `json:"after,omitempty"`
+}
+
+// reparse parses text with the tree tr, which has parsed other texts before, and with a new tree; the outcomes must be
+// the same.
+func reparse(tr *parse.Tree, name, text string) string {
+	type res struct {
+		err  string
+		root bool
+		pan  any
+	}
+	run := func(t *parse.Tree) (r res, done bool) {
+		done = fw.WithTimeout(20, func() {
+			defer func() { r.pan = recover() }()
+			got, err := t.Parse(text)
+			if err != nil {
+				r.err = err.Error()
+			} else {
+				r.root = got != nil && got.Root != nil
+			}
+		})
+		return
+	}
+	a, ok := run(tr)
+	if !ok {
+		return fmt.Sprintf("Parse on a Tree that has parsed before did not return within the watchdog on %q", text)
+	}
+	if a.pan != nil {
+		return fmt.Sprintf("Parse on a Tree that has parsed before panicked on %q: %v", text, a.pan)
+	}
+	b, ok := run(parse.New(name, nil))
+	if !ok || b.pan != nil {
+		return "" // the fresh parse is judged by parseOne
+	}
+	if a != b {
+		return fmt.Sprintf("text %q: a new Tree gives (error %q, root %v), a Tree that has parsed other texts before gives (error %q, root %v)", text, b.err, b.root, a.err, a.root)
+	}
+	return ""
 }
 
 func moduleStmt(g *yg.G) *yg.Stmt {
@@ -179,6 +221,11 @@ func genCase(t *rapid.T) Case {
 		// the text as is (valid-ish)
 	}
 	c.Text = fw.BStr(text)
+	if g.Pick(4, "reuse") == 2 {
+		c.Reuse = true
+		afters := []string{"module m { namespace \"urn:m\"; prefix m; }", "a { }", "module a { leaf", "x \"y\" module", "", "leaf x { type string; }", strings.Repeat(" ", 50) + "x y z", "a:b c;"}
+		c.After = fw.BStr(afters[g.Pick(len(afters), "after")])
+	}
 	return c
 }
 
@@ -331,12 +378,33 @@ func checkCase(c Case) fw.Outcome {
 		}
 		out.NonTrivial = st != "top" || rej
 		out.Violation = msg
+		if msg == "" && c.Reuse {
+			out.Labels = append(out.Labels, "tree-reused")
+			tr := parse.New("in.yang", nil)
+			for _, t := range []string{text, string(c.After), text} {
+				if m := reparse(tr, "in.yang", t); m != "" {
+					out.Violation = m
+					break
+				}
+			}
+		}
 		return out
 	}
 	out.Labels = append(out.Labels, "all-prefixes")
 	seen := map[string]bool{}
+	var shared *parse.Tree
+	if c.Reuse {
+		out.Labels = append(out.Labels, "tree-reused")
+		shared = parse.New("in.yang", nil)
+	}
 	for i := 0; i <= len(text); i++ {
 		p := text[:i]
+		if shared != nil {
+			if m := reparse(shared, "in.yang", p); m != "" {
+				out.Violation = m
+				return out
+			}
+		}
 		st := endState(p)
 		if !seen[st] {
 			seen[st] = true
@@ -357,7 +425,8 @@ var total = fw.Register(&fw.Prop[Case]{
 	Rule: "YANG texts with every quoting form, comments and nested blocks from the statement generator, and EVERY PREFIX of them (each byte offset is a way to end inside a keyword, word, " +
 		"quoted string, escape, comment, concatenation or block); the same with a byte flipped / deleted / doubled or a hostile fragment (NUL, 0xFF, CR, FF, quotes, comment openers) inserted; " +
 		"unbalanced braces up to depth 200; fragment soups; oracle: returns within a watchdog, no panic, nil error implies a root statement, a non-nil error names the input and a line:column " +
-		"inside it, and the number of goroutines inside parse.(*lexer).run returns to its pre-call value; non-trivial = the text ends inside a token/string/comment/block or is rejected",
+		"inside it, and the number of goroutines inside parse.(*lexer).run returns to its pre-call value; in a quarter of the cases the texts (all prefixes, or the text, a second text and the text again) " +
+		"are also parsed one after the other with one Tree object, and every outcome equals that of a new Tree; non-trivial = the text ends inside a token/string/comment/block or is rejected",
 	Gen: genCase, Check: checkCase,
 	MinLabel: []string{"all-prefixes", "end:word", "end:quoted", "end:escape", "end:block-comment", "end:line-comment", "end:open-block", "rejected", "accepted"},
 })
